@@ -290,6 +290,13 @@ func normaliseComparisons(prog *ssa.Program) {
 				}
 				if isGlobalLoad(bo.X) && !isGlobalLoad(bo.Y) && !cy {
 					bo.X, bo.Y, bo.Op = bo.Y, bo.X, op
+					continue
+				}
+				// a loop variable on the right of a call result: `rt.NumIn() > i` becomes `i < rt.NumIn()`
+				if _, isCall := bo.X.(*ssa.Call); isCall {
+					if _, isPhi := bo.Y.(*ssa.Phi); isPhi {
+						bo.X, bo.Y, bo.Op = bo.Y, bo.X, op
+					}
 				}
 			}
 		}
